@@ -147,9 +147,12 @@ CHECKS = {
             "proof model, component rg): C03_ref_ops_frame (for every operation - construct, bind to existing / to a value (new node) / "
             "to null, write through the handle or through a reference, copy, update, allocation, growth - at most the node operated on "
             "changes among the previously live regions; every other live region keeps every byte, across growth too) and "
-            "C03_ref_ops_disjoint (what is newly created is disjoint from everything live and inside the storage).",
-            "Partial: for references held in dynamic structs and arrays the extents newly allocated for reference targets come from "
-            "the traced allocate() calls (tie + oracle).",
+            "C03_ref_ops_disjoint (what is newly created is disjoint from everything live and inside the storage), "
+            "C03_copy_between_buffers_frame (construction in ANOTHER buffer from an existing object, referents duplicated: the source "
+            "buffer is not written, every previously live region of the destination keeps every byte, all regions afterwards are "
+            "pairwise disjoint and inside the storage).",
+            "Partial: for references held in dynamic structs (next to other dynamic fields) the extents newly allocated for reference "
+            "targets come from the traced allocate() calls (tie + oracle); dynamic arrays of references are nodes of the proven model.",
             "7/C03"),
     "C05": (LAY + "oracle: a decoder written in Python only from Architecture.md/types.rst run on the real bytes",
             "Kernel-checked theorems: C05_decode (decoding the bytes by the documented rules - size word, header words, offset slots, "
